@@ -69,6 +69,27 @@ func c14Cases(thorough bool) []c14Case {
 			}
 		}
 	}
+	// maps whose key type is not exactly string (quantifiers over them are documented errors; whatever the
+	// implementation does with them must still not depend on the iteration order)
+	for n := 2; n <= 3; n++ {
+		for _, pat := range patterns(3, n)[lenPrefix(3, n):] {
+			two := NInt(KInt, false, 2)
+			var ik, nk, ak, uk []*Node
+			for i, p := range pat {
+				v := pick(p, one, two, NNilAny())
+				ik = append(ik, NInt(KInt, false, int64(i+1)), v)
+				nk = append(nk, NStr(true, "k"+strconv.Itoa(i)), v)
+				ak = append(ak, str("k"+strconv.Itoa(i)), v)
+				uk = append(uk, NUint(KUint8, false, uint64(i)), v)
+			}
+			for _, m := range []*Node{NMap(TInt, TAny, ik...), NMap(Sc(KString, true), TAny, nk...), NMap(TAny, TAny, ak...), NMap(Sc(KUint8, false), TAny, uk...)} {
+				d := NMap(TStr, TAny, str("m"), m)
+				for _, q := range []string{"any", "all"} {
+					out = append(out, c14Case{q + " m as k, v { v == 1 }", d, "non-string-keys"}, c14Case{q + " m as k { k == 1 or k == `k0` }", d, "non-string-keys"})
+				}
+			}
+		}
+	}
 	// nested: map of maps, list of maps, map of lists
 	for _, patO := range patterns(3, 2)[lenPrefix(3, 2):] {
 		for _, patI := range patterns(3, 2)[lenPrefix(3, 2):] {
